@@ -347,6 +347,16 @@ impl Drop for PauseGuard {
     }
 }
 
+/// Switches registration of new allocations on/off inside a window (deallocations are always checked)
+pub fn set_tracking(on: bool) {
+    let t = ts();
+    if !t.is_null() {
+        unsafe {
+            (*t).tracking = on && (*t).window;
+        }
+    }
+}
+
 /// Runs `f` with tracking off.
 pub fn untracked<R>(f: impl FnOnce() -> R) -> R {
     let _g = pause();
